@@ -180,20 +180,21 @@ Definition b32_decode (s : string) : option (string * list N * N) :=
       end
   end.
 
-(* ToBase32: regroup 8-bit bytes into 5-bit groups, big-endian, zero-padded *)
-Fixpoint to_base32_aux (bs : list N) (acc bits : N) : list N :=
-  match bs with
-  | [] => if bits =? 0 then [] else [N.land (N.shiftl acc (5 - bits)) 31]
-  | b :: r =>
-      let acc' := acc * 256 + b in
-      let bits' := bits + 8 in
-      if 10 <=? bits' then
-        N.land (N.shiftr acc' (bits' - 5)) 31 :: N.land (N.shiftr acc' (bits' - 10)) 31
-          :: to_base32_aux r (N.land acc' (N.ones (bits' - 10))) (bits' - 10)
-      else
-        N.land (N.shiftr acc' (bits' - 5)) 31 :: to_base32_aux r (N.land acc' (N.ones (bits' - 5))) (bits' - 5)
+(* ToBase32: regroup 8-bit bytes into 5-bit groups, big-endian, zero-padded (on bit lists, so that
+   injectivity is a list argument rather than shift arithmetic) *)
+Definition byte_bits (b : N) : list bool :=
+  [N.testbit b 7; N.testbit b 6; N.testbit b 5; N.testbit b 4; N.testbit b 3; N.testbit b 2; N.testbit b 1; N.testbit b 0].
+Fixpoint chunk5 (bits : list bool) : list (list bool) :=
+  match bits with
+  | a :: b :: c :: d :: e :: r => [a; b; c; d; e] :: chunk5 r
+  | [] => []
+  | [a] => [[a; false; false; false; false]]
+  | [a; b] => [[a; b; false; false; false]]
+  | [a; b; c] => [[a; b; c; false; false]]
+  | [a; b; c; d] => [[a; b; c; d; false]]
   end.
-Definition to_base32 (bs : list N) : list N := to_base32_aux bs 0 0.
+Definition bits_val (l : list bool) : N := fold_left (fun acc (b : bool) => 2 * acc + (if b then 1 else 0)) l 0.
+Definition to_base32 (bs : list N) : list N := map bits_val (chunk5 (flat_map byte_bits bs)).
 
 (* ================= contract helpers ================= *)
 (* helpers::validate_address *)
